@@ -594,6 +594,9 @@ class Qube(object):
         if isinstance(mask, bool):
             return mask
 
+        if mask.shape == () and shape == ():    # a shapeless mask is a bool
+            return bool(mask)
+
         if mask.shape == shape:
             if check and not np.any(mask):
                 return False
